@@ -557,6 +557,10 @@ def correspond(model_ok, res):
         rec["snap"] = snapshot(T, tree)
         rec["keep"] = copy.deepcopy(tree)
         rec["out"], rec["err"] = None, None
+        if len(rec["desc"]) % 29 == 3:
+            # a call that cannot complete (a tree deeper than the recursion limit) on the module-level instance,
+            # right before this one: nothing of it may be seen by the calls that follow
+            gentree.aborted_call(aht, T)
         try:
             rec["out"] = aht(tree)
         except IndexError:
